@@ -327,7 +327,9 @@ class C18(common.Prop):
             ([("A", b, ef), ("B", b, sf)], "B"),
         ]
         if tier == "quick":
-            return [(c, 2) for c in core + rng.sample(extra, 1)]
+            # "late3": three preemptions placed in the second half of both reads (where a miss stores its header): the
+            # interleavings in which two stores overlap and a third party observes the memo afterwards
+            return [(c, 2) for c in core + rng.sample(extra, 1)] + [(([("A", b, None), ("C", b, None)], None), "late3")]
         return [(c, 3) for c in core] + [(c, 2) for c in extra]
 
     def gen_cases(self, rng, tier):
@@ -388,6 +390,8 @@ class C18(common.Prop):
     @staticmethod
     def lengths(p, tier, rng):
         rg = range(1, LMAX + 1)
+        if p == "late3":
+            return [(i, j, k) for i in range(7, LMAX + 4) for j in range(7, LMAX + 4) for k in range(1, 8)]
         if p == 2:
             return [(i, j) for i in rg for j in rg]
         return [(i, j, k) for i in rg for j in rg for k in rg]
@@ -487,7 +491,18 @@ class C18(common.Prop):
             traces[t].append([at[0], toks[at[0]].get(at[1], "?") if toks else str(at[1])])
         th = [dict(self.observe(rp.res[t], rp.obs[t]), trace=traces[t]) for t in range(n)]
         case["_threads"], case["_solos"] = th, solos
+        case["_after"] = self.aftermath(case) if complete else None
         return {"complete": complete, "threads": th}
+
+    def aftermath(self, case):
+        """every file read once more, sequentially, on the memo the concurrent reads left behind: what they stored must not
+        make a later read of any of the files wrong"""
+        out = []
+        for j in case["jobs"]:
+            rp = Replay(1, self.watch, self.hread_code)
+            rp.run([self.open_job(case, j)], [0] * (3 * LMAX))
+            out.append(self.observe(rp.res[0], rp.obs[0]))
+        return out
 
     # ---- model
     def model_request(self, case):
@@ -571,13 +586,19 @@ class C18(common.Prop):
             if a["res"] != s["res"] and self.stream_reader_stable(case, j):
                 return {"what": "thread %d (file %s): the pose differs from the pose the same read returns alone (%s vs %s)" % (
                     t, j["f"], a["res"][0], s["res"][0]), "thread": t, "kind": "pose"}
+        for t, (a, s) in enumerate(zip(case.get("_after") or [], solos)):
+            j = case["jobs"][t]
+            if a["res"] != s["res"] and self.stream_reader_stable(case, j):
+                return {"what": "after the concurrent reads finished, a sequential read of file %s returns %s where the same read alone "
+                                "returns %s: the memo they left behind is inconsistent" % (j["f"], a["res"][0], s["res"][0]),
+                        "thread": t, "kind": "aftermath"}
         return None
 
     def classify(self, case, failure):
         if failure.get("kind") == "line":
             w = failure.get("preempted_at") or ["?", "?", 0]
             return "read-path-race-at-%s:%s" % (w[0], w[1])
-        if failure.get("kind") in ("foreign-header", "foreign-offset", "wrong-header", "pose"):
+        if failure.get("kind") in ("foreign-header", "foreign-offset", "wrong-header", "pose", "aftermath"):
             return "header-memo-race-" + failure["kind"]
         return "c18-" + str(failure.get("what", "?"))[:30].replace(" ", "-")
 
